@@ -67,7 +67,13 @@ func TestVerifKEMFirstUse(t *testing.T) {
 		lib.CaseS("kem-first-use", name)
 		bad := false
 		for it := 0; it < sb.rounds && !bad; it++ {
-			skU, err := s.UnmarshalBinaryPrivateKey(lib.Clone(encSk))
+			// the buffer the key is read from is overwritten at once (a caller
+			// wiping its copy of the key): the key object must not live in it
+			skBuf := lib.Clone(encSk)
+			skU, err := s.UnmarshalBinaryPrivateKey(skBuf)
+			for i := range skBuf {
+				skBuf[i] ^= 0xA5
+			}
 			if err != nil {
 				lib.Violation("C06:own-key-refused:"+name, mon, lib.D("err", err))
 				break
